@@ -306,6 +306,11 @@ func (p *uPacketPacker) appendInitialPacketPayload(buffer *packetBuffer, header 
 		if minUDPSize == 0 {
 			minUDPSize = DefaultUDPDatagramMinSize
 		}
+		// The padding has to stay inside the pooled packet buffer: append() past its capacity
+		// moves buffer.Data to a new array, and releasing the buffer after the datagram was
+		// sent then panics ("putPacketBuffer called with packet of wrong size!"). A
+		// UDPDatagramMinSize that large is refused when dialing; this is the backstop.
+		minUDPSize = min(minUDPSize, cap(buffer.Data))
 		if len(buffer.Data) < minUDPSize {
 			buffer.Data = append(buffer.Data, make([]byte, minUDPSize-len(buffer.Data))...)
 		}
